@@ -41,8 +41,6 @@ func refRun(dir, keys string, script []blockScript, nctr int, path string) *refe
 	ref.Proj = append(ref.Proj, project(lg, nctr))
 	for i, bs := range script {
 		h := uint32(i + 1)
-		ts := lg.L.GetCurrentBlockHeight()
-		_ = ts
 		cur, _ := lg.L.GetHeaderByHeight(lg.L.GetCurrentBlockHeight())
 		t := cur.Timestamp + bs.Dt
 		if bs.Dt == 0 {
@@ -75,8 +73,9 @@ func refRun(dir, keys string, script []blockScript, nctr int, path string) *refe
 // ---------------------------------------------------------------- crash cases
 
 type lifetime struct {
-	Crash *crashSpec `json:"crash,omitempty"`
-	Upto  uint32     `json:"upto"`
+	Crash  *crashSpec `json:"crash,omitempty"`
+	Upto   uint32     `json:"upto"`
+	Reopen bool       `json:"reopen,omitempty"`
 }
 
 type c12Case struct {
@@ -96,6 +95,8 @@ type obsEvent struct {
 	Header uint32            `json:"header"`
 	Tree   uint32            `json:"tree"`
 	Ctr    map[string]string `json:"ctr,omitempty"`
+	Events []bool            `json:"events,omitempty"` // per height: event records present
+	Same   bool              `json:"same"`             // block height = state height = header height, tree size = height+1
 	RefEq  bool              `json:"refEq"`
 	Diff   []string          `json:"diff,omitempty"`
 }
@@ -166,13 +167,22 @@ func abstractEvent(e childEvent, ref *reference, reopened bool) obsEvent {
 	}
 	p := e.Proj
 	o.Block, o.State, o.Header, o.Tree, o.Ctr = p.BlockHeight, p.StateHeight, p.HeaderHeight, p.TreeSize, p.Ctr
+	o.Same = p.BlockHeight == p.StateHeight && p.BlockHeight == p.HeaderHeight && p.TreeSize == p.BlockHeight+1
+	for _, hi := range p.Heights {
+		o.Events = append(o.Events, !(len(hi.Events) == 1 && hi.Events[0] == "<none>"))
+	}
 	if int(p.BlockHeight) < len(ref.Proj) {
 		r := ref.Proj[p.BlockHeight]
 		o.RefEq = r.Digest == p.Digest
 		if !o.RefEq {
 			o.Diff = diffProj(*p, r)
-			if len(o.Diff) > 12 {
-				o.Diff = o.Diff[:12]
+			if len(o.Diff) > 8 {
+				o.Diff = o.Diff[:8]
+			}
+			for i := range o.Diff {
+				if len(o.Diff[i]) > 240 {
+					o.Diff[i] = o.Diff[i][:240] + "..."
+				}
 			}
 		}
 	}
@@ -183,7 +193,7 @@ func c12Replay(nscripts, nblocks int) {
 	setupGlobals()
 	self, err := os.Executable()
 	vio.Must(err)
-	base := filepath.Join(outDir(), "c12")
+	base := filepath.Join(outDir(), fmt.Sprintf("c12-%d", os.Getpid()))
 	vio.Must(os.MkdirAll(base, 0755))
 	keys := filepath.Join(base, "keys")
 	ledgerkit.LoadOrCreateAccounts(keys, 1)
@@ -226,7 +236,7 @@ func c12Replay(nscripts, nblocks int) {
 		os.RemoveAll(dir)
 		res := c12Result{ID: c.ID, Script: c.Script}
 		for _, lt := range c.Lifetimes {
-			sp := childSpec{Dir: dir, Keys: keys, Blocks: ref.BlocksFile, NCtr: nblocks, Crash: lt.Crash, Upto: lt.Upto, Path: c.Path}
+			sp := childSpec{Dir: dir, Keys: keys, Blocks: ref.BlocksFile, NCtr: nblocks, Crash: lt.Crash, Upto: lt.Upto, Path: c.Path, Reopen: lt.Reopen}
 			lo, evs := runChild(self, sp)
 			res.Children++
 			for _, e := range evs {
